@@ -119,45 +119,51 @@ func TestTrace(t *testing.T) {
 		emit(s[:])
 	}
 	// concurrent logins: many goroutines ask the same authenticator for server ids at once, in
-	// tight loops (results are collected per goroutine and judged afterwards like the others)
+	// tight loops over a fixed set of secrets each (hundreds of thousands of calls).  Identical
+	// observations (same secret, same id) are grouped; every DISTINCT observation becomes a trace
+	// line that TLC judges like the sequential ones.
 	{
-		type pair struct {
-			secret []byte
+		type obs struct {
+			secret string
 			id     string
 		}
 		var wg sync.WaitGroup
-		workers, per := 32, tracefmt.EnvInt("VERIF_CONC", 600)
-		results := make([][]pair, workers)
+		workers, secrets, rounds := 32, 40, tracefmt.EnvInt("VERIF_CONC", 300)
+		results := make([]map[obs]int, workers)
 		start := make(chan struct{})
 		for wkr := 0; wkr < workers; wkr++ {
 			wkr := wkr
-			seed := rng.Int63()
+			lr := mrand.New(mrand.NewSource(rng.Int63()))
+			mine := make([][]byte, secrets)
+			for i := range mine {
+				mine[i] = make([]byte, 16)
+				lr.Read(mine[i])
+			}
 			wg.Add(1)
 			go func() {
 				defer wg.Done()
-				lr := mrand.New(mrand.NewSource(seed))
-				out := make([]pair, 0, per)
+				seen := map[obs]int{}
 				<-start
-				for i := 0; i < per; i++ {
-					s := make([]byte, 16)
-					lr.Read(s)
-					id, err := a.GenerateServerID(s)
-					if err != nil {
-						t.Errorf("GenerateServerID: %v", err)
-						return
+				for r := 0; r < rounds; r++ {
+					for _, s := range mine {
+						id, err := a.GenerateServerID(s)
+						if err != nil {
+							t.Errorf("GenerateServerID: %v", err)
+							return
+						}
+						seen[obs{string(s), id}]++
 					}
-					out = append(out, pair{s, id})
 				}
-				results[wkr] = out
+				results[wkr] = seen
 			}()
 		}
 		close(start)
 		wg.Wait()
-		for _, out := range results {
-			for _, p := range out {
-				d := digest(p.secret)
-				tw.Emit(tracefmt.Rec{"ev": "id", "digest": tracefmt.Bytes(d), "id": p.id, "concurrent": true})
-				st.Ids++
+		for _, seen := range results {
+			for o, rep := range seen {
+				d := digest([]byte(o.secret))
+				tw.Emit(tracefmt.Rec{"ev": "id", "digest": tracefmt.Bytes(d), "id": o.id, "concurrent": true, "rep": rep})
+				st.Ids += rep
 				st.Classes[classify(d)]++
 			}
 		}
